@@ -21,7 +21,7 @@ EXTENDS Common
 CONSTANTS MaxLen, EMIT
 
 Targets  == {"VecU8", "VecU64", "VecLitInt", "VecLitStr", "VecLitBool", "PathList"}
-Carriers == {"list", "array", "qarray", "word", "lit_int", "lit_str", "lit_bool"}
+Carriers == {"list", "array", "qarray", "word", "lit_int", "lit_str", "lit_bool", "repeat", "repeat_huge"}    \* .. f = [7; 2]   f = [0; 18446744073709551615]
 SeqCarriers == {"list", "array", "qarray"}
 \* 7   300   -1   "s"   "9"   true   'c'   1.5   a::b   w   k = 1   l(x)
 Classes  == {"int7", "int300", "neg", "str", "strnum", "bool", "chr", "flt", "path", "word", "nv", "sub"}
@@ -79,6 +79,7 @@ Whole(t, car) ==
     [] car = "list" -> IF IsNum(t) THEN Bad("format", "list", At("item", 0)) ELSE Good("")
     [] car = "array" -> IF t = "PathList" THEN Bad("type", "array", At("value", 0)) ELSE Good("")
     [] car = "qarray" -> IF t = "PathList" THEN Bad("type", "string", At("value", 0)) ELSE Good("")
+    [] car \in {"repeat", "repeat_huge"} -> Bad("type", "repeat", At("value", 0))       \* a repeat expression is no array: no allocation of its length either
     [] car = "lit_int" -> Bad("type", "int", At("value", 0))
     [] car = "lit_bool" -> Bad("type", "bool", At("value", 0))
     [] car = "lit_str" -> IF t = "PathList" THEN Bad("type", "string", At("value", 0)) ELSE Bad("value", "zz", At("value", 0))
